@@ -20,10 +20,10 @@ VARIABLES l,      \* next line
 
 mvars == <<l, obs, run, out>>
 
-DefaultCfg == [cap |-> 1, batch |-> 0, dqbatch |-> 0, retry |-> 0, dq |-> FALSE]
+DefaultCfg == [cap |-> 1, batch |-> 0, dqbatch |-> 0, retry |-> 0, dq |-> FALSE, gaps |-> FALSE]
 
 Apply(o, t) ==
-  CASE t.ev = "Reset"     -> ObsNew([cap |-> t.cap, batch |-> t.batch, dqbatch |-> t.dqbatch, retry |-> t.retry, dq |-> t.dq])
+  CASE t.ev = "Reset"     -> ObsNew([cap |-> t.cap, batch |-> t.batch, dqbatch |-> t.dqbatch, retry |-> t.retry, dq |-> t.dq, gaps |-> t.gaps])
     [] t.ev = "InCall"    -> OInCall(o, t.id, t.src, t.stream, t.off, t.idx)
     [] t.ev = "Own"       -> IF t.id \in Ev THEN OOwn(o, t.id, t.obj) ELSE o
     [] t.ev = "InRet"     -> OInRet(o, t.id, t.ok)
@@ -31,10 +31,13 @@ Apply(o, t) ==
     [] t.ev = "Propagate" -> OPropagate(o, t.id)
     [] t.ev = "Out"       -> OAdd(o, t.b, t.id)
     [] t.ev = "SendCall"  -> OSendCall(o, t.b, t.seq, t.ids)
+    [] t.ev = "SendBytes" -> OSendBytes(o, t.b, t.first, t.total, t.last, t.limit)
+    [] t.ev = "Stale"     -> OStale(o, t.b, t.first, t.waited, t.bound)
+    [] t.ev = "ParentSent" -> [o EXCEPT !.viol = @ \cup {V("parent_sent", t.id, 0, t.b, "")}]
     [] t.ev = "SendRet"   -> OSendRet(o, t.b, t.ids, t.ok)
     [] t.ev = "GiveUp"    -> OGiveUp(o, t.b, t.ids)
     [] t.ev = "Fail"      -> OFail(o, t.id)
-    [] t.ev = "BCommit"   -> OBatchCommit(o, t.b, t.id)
+    [] t.ev = "BCommit"   -> OBatchCommit(o, t.b, t.id, t.nosend)
     [] t.ev = "Commit"    -> OCommit(o, t.id, t.by)
     [] t.ev = "End"       -> IF t.idle THEN OEnd(o, t.inuse, t.waiters)
                              ELSE [o EXCEPT !.viol = @ \cup {V("not_idle", 0, 0, "end", "")}]
